@@ -5,3 +5,4 @@ INVARIANT C07_Storm
 INVARIANT C07_StormSeq
 INVARIANT C09_Reissue
 INVARIANT C06_Order
+INVARIANT C09_NoPanic
